@@ -265,6 +265,8 @@ def learner_forms(ctx, n_groups):
                 "lam": rwlib.nd(p["lam"])}
         method = ["openmp", "threading"][g % 2]
         n_jobs = rng.choice([1, 2, 3])
+        # several temporary chunk files: chunk boundaries are event indices AFTER frequency expansion
+        base["events_per_file"] = rng.choice([2, 3, 10000000]) if g % 4 in (1, 2) else 10000000
         members = []
         for form in ("path", "pathlib", "generator"):
             members.append(("ndl", form, dict(base, learner="ndl", form=form, method=method, n_jobs=n_jobs)))
@@ -272,6 +274,7 @@ def learner_forms(ctx, n_groups):
         for form in ("path", "list", "generator"):
             members.append(("dict_ndl", form, dict(base, learner="dict_ndl", form=form, make_data_array=mda)))
         groups.append({"events": expanded, "freqs": freqs, "text": text, "p": {k: str(v) for k, v in p.items()},
+                       "events_per_file": base["events_per_file"],
                        "method": method, "n_jobs": n_jobs, "members": [(a, b) for a, b, _ in members],
                        "first_job": len(jobs)})
         jobs += [j for _, _, j in members]
@@ -284,7 +287,8 @@ def learner_forms(ctx, n_groups):
         if st != "ok" or mev != g["events"]:
             raise RuntimeError("model contradicts C07_frequency on %r" % (g["text"],))
         desc = {"events": g["events"] if len(str(g["events"])) < 900 else str(g["events"])[:900] + "...",
-                "frequency_column": g["freqs"], "params": g["p"], "method": g["method"], "n_jobs": g["n_jobs"]}
+                "frequency_column": g["freqs"], "params": g["p"], "method": g["method"], "n_jobs": g["n_jobs"],
+                "events_per_temporary_file": g["events_per_file"]}
         rep.case(desc, nontrivial=len(g["events"]) >= 2)
         rep.hist("learner_group", "freq" if g["freqs"] else "plain")
         tables = {}
